@@ -36,7 +36,8 @@ def single_slot(d):
 
 
 class ProcRef:
-    """Reference state machine of one PartProcessor, driven by observed callbacks (C06, C11, C13)."""
+    """Reference state machine of one PartProcessor, driven by observed callbacks (C06, C11, C13).
+    Times are compared exactly on the dyadic grid (mon.tol == 0) and within mon.tol on decimal-time models."""
 
     def __init__(self, mon, P):
         self.mon = mon
@@ -137,7 +138,7 @@ class ProcRef:
         if p is not self.part:
             self.bad('C06.finished-wrong-part', f'{m.name} finished {p.name} at {now} but the part in process is '
                      f'{getattr(self.part, "name", None)}')
-        if self.elapsed != self.expected:
+        if abs(self.elapsed - self.expected) > mon.tol:
             self.bad('C06.cycle', f'{m.name} finished {p.name} at {now} after {self.elapsed} of operational time, '
                      f'the cycle time in effect at acceptance was {self.expected}')
         if not self.up:
@@ -158,9 +159,9 @@ class ProcRef:
         if 'acct' in self.mon.on:
             if P.is_operational() != self.up:
                 self.bad('C13.state', f'{P.name} is_operational()={P.is_operational()} at {now}, reference says {self.up}')
-            if P.uptime != self.uptime:
+            if abs(P.uptime - self.uptime) > self.mon.tol:
                 self.bad('C13.uptime', f'{P.name} uptime {P.uptime} at {now}, operational time so far is {self.uptime}')
-            if P.utilization_time != self.util:
+            if abs(P.utilization_time - self.util) > self.mon.tol:
                 self.bad('C13.utilization', f'{P.name} utilization_time {P.utilization_time} at {now}, time spent '
                          f'processing so far is {self.util}')
             if (P._part is None) != (self.part is None) or (P._part is not None and P._part is not self.part):
@@ -175,7 +176,7 @@ class ProcRef:
             if self.part is None and P._part is not None:
                 self.bad('C06.ended-part-still-held', f'{P.name} still holds {P._part.name} in process at {now} although its '
                          f'processing ended (finished or lost by a failure)')
-            if self.up and self.part is not None and self.elapsed > self.expected:
+            if self.up and self.part is not None and self.elapsed > self.expected + self.mon.tol:
                 self.bad('C06.late', f'{P.name} still processes {self.part.name} at {now} after {self.elapsed} of '
                          f'operational time, cycle time in effect was {self.expected}')
 
@@ -212,6 +213,8 @@ class Monitor:
         self.spec = model.spec
         self.probing = False
         self.strict_ready = 'noise' in str(model.spec.get('profile', ''))
+        # decimal-time models ('...-noisy'): accounting identities hold up to accumulated rounding only
+        self.tol = 1e-9 if 'noisy' in str(model.spec.get('profile', '')) else 0
         self.devs = [d for d in model.D.values() if isinstance(d, PartFlowController)]
         self.events = 0
         self.zero_run = 0
@@ -296,7 +299,7 @@ class Monitor:
         elif isinstance(dev, Sink):
             # a sink accepts the next part no sooner than its cycle time (one-shot offsets included) after this one
             nxt = self.sink_next.get(name)
-            if 'cycle' in self.on and nxt is not None and now < nxt[0]:
+            if 'cycle' in self.on and nxt is not None and now < nxt[0] - self.tol:
                 self.bad('C06.sink', f'{name} accepted {part.name} at {now}; it accepted the previous part at {nxt[1]} and its '
                          f'cycle time then was {nxt[0] - nxt[1]}')
             self.sink_next[name] = (now + max(0, dev.cycle_time + self.m.pending_offset.pop(name, 0)), now)
@@ -888,11 +891,11 @@ class Monitor:
             part, a, exp = st
             d = D[name]
             if d._part is part:
-                if now - a > exp or (quiescent and now - a >= exp):
+                if now - a > exp + self.tol or (quiescent and self.tol == 0 and now - a >= exp):
                     self.bad('C06.late', f'{name} still holds {part.name} unfinished at {now}; accepted at {a} with '
                              f'cycle time {exp}')
             else:
-                if now - a != exp:
+                if abs((now - a) - exp) > self.tol:
                     self.bad('C06.cycle', f'{name} released {part.name} from processing at {now}; accepted at {a} with '
                              f'cycle time {exp}')
                 del self.hstate[name]
@@ -900,9 +903,9 @@ class Monitor:
             for s, last in self.src_last.items():
                 d = D[s]
                 c = d.cycle_time
-                if d._output is None and now >= last + c and now > 0:
+                if d._output is None and now >= last + c + self.tol and now > 0:
                     self.bad('C06.source-late', f'{s} has no part ready at {now} although its cycle ({c}) started at {last}')
-                if d._output is not None and now < last + c:
+                if d._output is not None and now < last + c - self.tol:
                     self.bad('C06.source-early', f'{s} has a part ready at {now} although its cycle ({c}) started at {last}')
 
     # -------------------------------------------------------------------------------------- batcher
@@ -1155,8 +1158,8 @@ class Monitor:
         ends = list(self.m.wo_ended)
         for (t, name, dur, cost) in self.m.wo_started:
             exp = t + dur
-            if exp <= self.env.now:
-                hit = [e for e in ends if e[1] == name and e[0] == exp]
+            if exp <= self.env.now - self.tol:
+                hit = [e for e in ends if e[1] == name and abs(e[0] - exp) <= self.tol]
                 if not hit:
                     self.bad('C13.work-order-duration', f'work order on {name} started at {t} with duration {dur} but '
                              f'its end hook ran at {[e[0] for e in ends if e[1] == name]}')
